@@ -120,6 +120,14 @@ func init() {
 		NotCovered: "that counts equal occurrences (pairing per operation is not the global sum), the shared refcount map across per-block copies, Billet's restore counts",
 	})
 	register(&PropertySpec{
+		ID: "C05",
+		Rules: []RuleSpec{
+			{"token-writers", "account balances, total supply, voters count, candidate records and notary deposits are written only by the tabled functions that keep them consistent; saveTotalSupply runs only inside addTokens; a stored candidate record is never replaced by a blank one", ruleTokenWriters},
+			{"amount-immutable", "no native function leaves a *big.Int parameter modified: in-place negation is flipped back on every path, no other mutator has a parameter as receiver (the amount of an already emitted Transfer event is the same integer)", ruleAmountImmutable},
+		},
+		NotCovered: "the sums themselves; reward distribution; anything numeric",
+	})
+	register(&PropertySpec{
 		ID: "C07",
 		Rules: []RuleSpec{
 			{"admit-dominators", "every admission check of verifyAndPoolTx (script, expiry, VUB window, policy, size, network fee, on-chain/conflict record, witnesses with the remaining fee, attributes) gates pool.Add on every CFG path", ruleAdmitDominators},
